@@ -214,6 +214,110 @@ def oracle_recv(cfg: dict, obs: dict) -> str | None:
     return None
 
 
+# ---------------------------------------------------------------------------------------------------------
+# send lock held by a sender that is blocked mid-packet: lock wait is part of the budget (C11), a timed-out waiter must
+# not disturb the holder (C12)
+
+
+def run_sendlock(ctx: Ctx, cfg: dict) -> dict:
+    world = World(ctx, horizon=4000)
+    sched = vthreads.Scheduler(ctx, world=world, horizon=3000)
+    saved = _base_selector.selectors
+    out: dict[str, Any] = {"calls": {}}
+    try:
+        with vthreads.installed(sched):
+            _base_selector.selectors = _shim(world, sched)  # type: ignore[assignment]
+            sock = world.stream_socket(tx_cap=3)
+            client = TCPNetworkClient(sock, StreamProtocol(TriSerializer()), retry_interval=math.inf)
+            done: dict[str, bool] = {}
+
+            def sender(name: str, packet: str, T: float | None, after: str | None = None):
+                def body() -> None:
+                    if after is not None:
+                        sched.point("wait-" + after, lambda: done.get(after, False))
+                    t0 = sched.clock()
+                    w0 = len(sock.tx.total)
+                    try:
+                        client.send_packet(packet, timeout=T)
+                        r = "ok"
+                    except TimeoutError:
+                        r = "timeout"
+                    except BaseException as exc:  # noqa: BLE001
+                        if type(exc).__name__ in ("_Abort", "HorizonHit", "Pruned", "DivergenceError"):
+                            raise
+                        r = "raised:" + type(exc).__name__
+                    out["calls"][name] = (r, T, round(t0, 6), round(sched.clock(), 6), len(sock.tx.total) - w0)
+                    done[name] = True
+                return body
+
+            names = ["A", "B"] + (["C"] if cfg.get("with_C") else [])
+
+            def peer() -> None:
+                # drains everything at the listed instants, then (so that nobody waits forever) every second from
+                # two seconds after the last listed instant
+                times = list(cfg["drains"])
+                nxt = max(times) + 2.0
+                while not all(done.get(n) for n in names):
+                    when = times.pop(0) if times else nxt
+                    if not times and when == nxt:
+                        nxt += 1.0
+                    sched.point("peer-wait", lambda when=when: sched.clock() >= when or all(done.get(n) for n in names), when)
+                    del sock.tx.q[:]
+
+            sched.spawn(sender("A", "AAA", None), "A")
+            sched.spawn(sender("B", "BB", cfg["T_B"], after=None), "B")
+            if cfg.get("with_C"):
+                sched.spawn(sender("C", "CCCC", None, after="B"), "C")
+            sched.spawn(peer, "peer")
+            try:
+                out["status"] = sched.run()
+            finally:
+                sched.abort()
+            out["wire"] = bytes(sock.tx.total)
+            out["preemptions"] = sched.preemptions
+    finally:
+        _base_selector.selectors = saved  # type: ignore[assignment]
+        world.close_all()
+    return out
+
+
+def oracle_sendlock(cfg: dict, obs: dict) -> str | None:
+    if obs["status"] != "ok":
+        return "hang-" + obs["status"]
+    calls = obs["calls"]
+    for name in ["A", "B"] + (["C"] if cfg.get("with_C") else []):
+        if name not in calls:
+            return "call-did-not-finish"
+        r, T, t0, t1, _w = calls[name]
+        if r.startswith("raised:"):
+            return "send-raised-unexpected-" + r[7:]
+        if T is None and r != "ok":
+            return "send-failed"
+        if T is not None:
+            if t1 - t0 > T + 1e-6:
+                return "budget-exceeded-with-lock-wait"
+            if r == "timeout" and t1 - t0 < T - 1e-6:
+                return "timeout-raised-early"
+    sent = [p for n, p in (("A", "AAA"), ("B", "BB"), ("C", "CCCC")) if n in calls and calls[n][0] == "ok"]
+    frames = decode_wire(obs["wire"])
+    if frames is None:
+        b = calls["B"]
+        if b[0] == "timeout" and b"<B" in obs["wire"] and b"<BB>" not in obs["wire"]:
+            return None  # B timed out in the middle of its OWN write: the stream is documented as unusable then
+        return "packets-interleaved-or-corrupted-on-the-wire"
+    if collections.Counter(frames) != collections.Counter(sent):
+        return "wire-is-not-the-multiset-of-successful-sends"
+    return None
+
+
+SENDLOCK_CONFIGS = [
+    {"T_B": 2.0, "drains": [1.0]},                      # B gets the lock at 1.0 with 1.0 left, then blocks: TimeoutError at 2.0
+    {"T_B": 2.0, "drains": [1.0, 1.5]},                 # B completes at 1.5
+    {"T_B": 0.5, "drains": [1.0, 2.0, 3.0, 4.0], "with_C": True},   # B times out on the lock; C sends afterwards
+    {"T_B": 0.5, "drains": [1.0, 2.0, 3.0, 4.0]},
+    {"T_B": 0, "drains": [1.0, 2.0, 3.0], "with_C": True},
+]
+
 RECV_CONFIGS = [
     {"timeouts": [2.0, 0.5], "arrivals": []},
     {"timeouts": [2.0, 3.0], "arrivals": []},
@@ -234,11 +338,13 @@ def jobs(tier: str) -> list[dict]:
                     continue
                 out.append({"part": "threads", "kind": "send", "subject": "tcp", "scenario": scen, "cap": cap, "drain": drain, "tier": tier})
     out.append({"part": "threads", "kind": "send", "subject": "udp", "scenario": "2x2", "cap": 0, "drain": 0, "tier": tier})
+    out += [{"part": "threads", "kind": "sendlock", "cfg": c, "tier": tier} for c in SENDLOCK_CONFIGS]
     return out
 
 
 def jobs_c11(tier: str) -> list[dict]:
-    return [{"part": "threads", "kind": "recv", "cfg": c, "tier": tier} for c in RECV_CONFIGS]
+    return [{"part": "threads", "kind": "recv", "cfg": c, "tier": tier} for c in RECV_CONFIGS] + \
+        [{"part": "threads", "kind": "sendlock", "cfg": c, "tier": tier} for c in SENDLOCK_CONFIGS]
 
 
 def run_job(job: dict) -> JobResult:
@@ -250,6 +356,9 @@ def run_job(job: dict) -> JobResult:
     if job["kind"] == "send":
         cfg = {k: job[k] for k in ("subject", "scenario", "cap", "drain")}
         runner, orc, name = run_send, oracle_send, "threads/" + job["subject"]
+    elif job["kind"] == "sendlock":
+        cfg = job["cfg"]
+        runner, orc, name = run_sendlock, oracle_sendlock, "threads/send-lock"
     else:
         cfg = job["cfg"]
         runner, orc, name = run_recv, oracle_recv, "threads/lock-contention"
@@ -261,6 +370,8 @@ def run_job(job: dict) -> JobResult:
         res.outcome(name + "-ok" if bad is None else "VIOLATION:" + bad)
         if job["kind"] == "send":
             sig: Any = (obs.get("wire"), tuple(map(tuple, obs["results"])), obs.get("preemptions"))
+        elif job["kind"] == "sendlock":
+            sig = (obs.get("wire"), tuple(sorted((k, v[0], v[3]) for k, v in obs["calls"].items())))
         else:
             sig = tuple((c[0], c[2], c[3], c[5]) for c in obs["calls"])
         res.nontrivial.add(digest((name, repr(sorted(cfg.items(), key=str)), sig)))
@@ -283,6 +394,9 @@ def replay(doc: dict) -> tuple[bool, str]:
     if rp["kind"] == "send":
         obs = run_send(ctx, rp["cfg"])
         bad = oracle_send(rp["cfg"], obs)
+    elif rp["kind"] == "sendlock":
+        obs = run_sendlock(ctx, rp["cfg"])
+        bad = oracle_sendlock(rp["cfg"], obs)
     else:
         obs = run_recv(ctx, rp["cfg"])
         bad = oracle_recv(rp["cfg"], obs)
